@@ -26,6 +26,23 @@ func genTree(r *Rng, depth int) map[string]any {
 		k := samapKeys[r.Intn(len(samapKeys))]
 		m[k] = genNode(r, depth)
 	}
+	// siblings of the same holding form with different contents: two or three nested maps held by pointer / by
+	// double pointer in one parent (a copy that reuses one variable for all of them is only visible here)
+	if depth > 0 && r.Chance(1, 5) {
+		form := r.Intn(2)
+		for i, k := range []string{"sib1", "sib2", "sib3"}[:2+r.Intn(2)] {
+			c := map[string]any{"id": i, k: "own-" + k}
+			if r.Chance(1, 3) {
+				c["sub"] = genTree(r, depth-1)
+			}
+			if form == 0 {
+				m[k] = &c
+			} else {
+				pc := &c
+				m[k] = &pc
+			}
+		}
+	}
 	return m
 }
 
